@@ -12,11 +12,23 @@ func filepathGlob(p string) ([]string, error) { return filepath.Glob(p) }
 // Minimise is delta debugging over a plan: it keeps a candidate iff test
 // reports the same violation class. Executors skip operations they cannot
 // make sense of, so any sub-plan is executable.
-func Minimise(orig *Plan, test func(*Plan) bool, deadline time.Time) *Plan {
+type minimiseDeadline struct{}
+
+func Minimise(orig *Plan, test func(*Plan) bool, deadline time.Time) (best *Plan) {
 	cur := orig.Clone()
+	// past the deadline the passes are abandoned at once (not merely answered "no": a pass over a
+	// schedule of 100 000 entries would still clone the plan once per entry); what was reached so far stands
+	defer func() {
+		if pv := recover(); pv != nil {
+			if _, ok := pv.(minimiseDeadline); !ok {
+				panic(pv)
+			}
+			best = cur
+		}
+	}()
 	try := func(c *Plan) bool {
 		if time.Now().After(deadline) {
-			return false
+			panic(minimiseDeadline{})
 		}
 		if test(c) {
 			cur = c
